@@ -249,8 +249,11 @@ def setup_buffer_statics(eng, st, sc, rootcls, aux=False):
     ba = smt.fresh("bufaddr_" + c, IntS)
     ra = smt.fresh("regaddr_" + c, IntS)
     st.assume(ba > 1000, ba < st.g["Alloc"], ra > 1000, ra < st.g["Alloc"], ba != ra)
-    for n in sc.__dict__.get("nodes", []):
-        pass
+    # [A-TREE] the class-level tables are objects of their own: no node's container is one of them
+    for a_, rec_ in st.objs.items():
+        dv = rec_.fields.get("_data")
+        if isinstance(dv, Z):
+            st.assume(ba != Val.addr(dv.term), ra != Val.addr(dv.term))
     st.statics[(c, "_buffer")] = Z(VRef(ba), "dict", {"static": (c, "_buffer")})
     st.statics[(c, "_buffered_collections")] = Z(VRef(ra), "dict", {"static": (c, "_buffered_collections")})
     if not aux:
